@@ -68,7 +68,7 @@ def _conc(prop, family, tier, seed, props, mode="th", level="model_checking"):
     inst_kw = conccheck.OBJ_INST if family == "C07" else conccheck.META_INST
     viol, r, n_out, n_states = conccheck.judge(results, inst_kw)
     conccheck.report(v, results, viol, props, r, n_out, n_states)
-    _stepcheck(v, tier, seed, mode, family)
+    _stepcheck(v, tier, seed, mode, family, explored=results)
     v.coverage["checker_cmd"] = ("harness.conc explorer (real code, all interleavings) ; tlc TraceLin ; "
                                  "tlc impl/MCImpl (implementation-shaped model) ; tlc impl/TraceSteps")
     v.assumptions += [
@@ -79,7 +79,12 @@ def _conc(prop, family, tier, seed, props, mode="th", level="model_checking"):
     return v
 
 
-def _stepcheck(v, tier, seed, mode="th", family="C07"):
+def _outcome_key(results, final):
+    st = {k: final[k] for k in ("obj", "pref", "cref", "doc", "junk")}
+    return json.dumps({"res": results, "st": st}, sort_keys=True)
+
+
+def _stepcheck(v, tier, seed, mode="th", family="C07", explored=None):
     """Implementation-shaped model: TLC model-checks spec/impl/FileHashStore.tla for the
     scenarios (exhaustively, 3-thread ones included) and validates recorded executions of the
     real code against it step by step.  Rejected traces are drift, not alarms."""
@@ -113,6 +118,34 @@ def _stepcheck(v, tier, seed, mode="th", family="C07"):
         "planted_corruptions": sum(r_.get("planted", 0) for r_ in res),
         "planted_corruptions_rejected": sum(r_.get("planted_rejected", 0) for r_ in res),
         "tlc_errors": [r_["scenario"] for r_ in res if r_.get("error")][:5]}
+    # two-sided comparison at OUTCOME level: terminal outcomes TLC reaches on the model vs the
+    # distinct terminal outcomes the harness reached on the real code (same scenario)
+    if explored:
+        real = {}
+        for r_ in explored:
+            tids = sorted(r_["scenario"]["threads"])
+            real[r_["scenario"]["name"]] = (
+                {_outcome_key({t: o["rec"]["results"][t]["cls"] for t in tids}, o["rec"]["final"])
+                 for o in r_["outcomes"] if o["rec"]["outcome"] == "done"}, r_["exhaustive"])
+        cmp_n = only_model = only_code = 0
+        samples = []
+        for r_ in res:
+            if r_["scenario"] in real and r_.get("model_outcomes") is not None and r_["mc"] and r_["mc"]["ok"]:
+                mo = set(r_["model_outcomes"])
+                ro, exh = real[r_["scenario"]]
+                cmp_n += 1
+                a = ro - mo
+                b = (mo - ro) if exh else set()
+                only_code += len(a)
+                only_model += len(b)
+                if (a or b) and len(samples) < 4:
+                    samples.append({"scenario": r_["scenario"], "only_in_code": sorted(a)[:1],
+                                    "only_in_model": sorted(b)[:1]})
+        v.coverage["impl_model"]["outcome_sets_compared"] = cmp_n
+        v.coverage["impl_model"]["outcomes_only_in_code"] = only_code
+        v.coverage["impl_model"]["outcomes_only_in_model"] = only_model
+        v.coverage["impl_model"]["outcome_difference_samples"] = samples
+        v.drift += only_code + only_model
     acc_planted = [(r_["scenario"], r_["planted_accepted"]) for r_ in res if r_.get("planted_accepted")]
     if acc_planted:
         v.notes.append({"planted_corruptions_ACCEPTED_by_the_model": acc_planted[:5]})
